@@ -2515,7 +2515,8 @@ impl SubRule {
         }
         captures.push(MatchElement::Syllable(csi, None));
 
-        *state_index += 1;
+        // NOTE: the state index is advanced by the caller (input_match_item), as for segment variables
+        let _ = state_index;
         pos.syll_index += 1;
         pos.seg_index = 0;
 
